@@ -116,7 +116,7 @@ class C15(Prop):
     assumptions = ['early completion inside the opening invocation is allowed by the statement; only "after it ended", '
                    '"twice", "never", "other thread" and "wrong captured value" are violations',
                    'a generator resume -> yield segment is the invocation unit, as CPython delivers it',
-                   'capture stages are put in the LocationAction config directly (build_trigger drops the stage)',
+                   'capture tracepoints are built both ways: stage in the LocationAction config directly, and as a tracepoint argument through build_trigger (which dropped it before 68e01e0)',
                    'program threads run one at a time; overlapping program threads are not generated here',
                    'a captured exception may be represented as the instance or as the (type, value, traceback) triple']
     quick_examples = 2500
@@ -139,7 +139,9 @@ class C15(Prop):
                                     'fire_count': st.sampled_from(['1', '-1', '-1']),
                                     # line tracepoints sit on the first line of the function, or on its last one (the
                                     # return statement: what they opened completes on the same event as the method's)
-                                    'at': st.sampled_from(['work', 'work', 'last', 'call'])})
+                                    'at': st.sampled_from(['work', 'work', 'last', 'call']),
+                                    # how a capture tracepoint is built: action config directly, or from arguments
+                                    'route': st.sampled_from(['config', 'config', 'args'])})
         # more openings pending on one thread than the interpreter allows frames: every level of a deep recursion holds
         # several (a span and a capture on the function, a span and a capture on its first line)
         kinds4 = st.lists(st.sampled_from(['method_span', 'line_span', 'method_capture', 'line_capture']), min_size=4,
@@ -189,6 +191,15 @@ class C15(Prop):
                                                          snapshot='no_collect'), [], [])
             elif k == 'line_span':
                 trig = build_trigger(tid, BASE, fi.get(at_, fi['work']), dict(base_cfg, span='line', snapshot='no_collect'), [], [])
+            elif tp.get('route') == 'args' and k == 'method_capture':
+                # configured the way the service does it: the stage is an argument of the tracepoint
+                trig = build_trigger(tid, BASE, -1, dict(base_cfg, **{STAGE: as_received(METHOD_CAPTURE),
+                                                                      'method_name': fi['name']}), [], [])
+                out.cls('capture_stage_given_as_tracepoint_argument')
+            elif tp.get('route') == 'args':
+                trig = build_trigger(tid, BASE, fi.get(at_, fi['work']),
+                                     dict(base_cfg, **{STAGE: as_received(LINE_CAPTURE)}), [], [])
+                out.cls('capture_stage_given_as_tracepoint_argument')
             elif k == 'method_capture':
                 act = LocationAction(tid, None, dict(base_cfg, **{STAGE: as_received(METHOD_CAPTURE), 'watches': []}),
                                      LocationAction.ActionType.Snapshot)
